@@ -170,6 +170,51 @@ theorem paramref_other_context (ck first : String) (segs : List Seg) (h : first 
     paramDeps ck first segs = [] := by
   simp [paramDeps, h]
 
+/-- **Interpolated strings**: the placeholders of one string share one resolver and the dependency set is the union
+of theirs; with handled JavaScript placeholders every non-empty field read by any placeholder is reported -/
+theorem interp_sound_partial : ∀ (parts : List Part), (∀ prog, Part.js prog ∈ parts → handled prog = true) →
+    ∀ d, interpDeps "inputs" parts = .ok d → ∀ fuel rs, interpReads fuel parts = some rs →
+    ∀ k, k ∈ rs → k ≠ "" → k ∈ d
+  | [], _, d, hd, fuel, rs, hr, k, hk, _ => by simp [interpReads] at hr; subst hr; simp at hk
+  | p :: r, h, d, hd, fuel, rs, hr, k, hk, hne => by
+    simp only [interpDeps] at hd
+    obtain ⟨a, ha, hd⟩ := bind_ok hd
+    obtain ⟨b, hb, hd⟩ := bind_ok hd
+    simp only [Except.ok.injEq] at hd
+    subst hd
+    simp only [interpReads] at hr
+    cases h1 : partReads fuel p with
+    | none => rw [h1] at hr; simp at hr
+    | some ra =>
+      cases h2 : interpReads fuel r with
+      | none => rw [h1, h2] at hr; simp at hr
+      | some rb =>
+        rw [h1, h2] at hr
+        simp only [Option.some.injEq] at hr
+        subst hr
+        rcases List.mem_append.mp hk with hk | hk
+        · apply List.mem_append_left
+          cases p with
+          | ref f segs =>
+            simp only [partReads, Option.some.injEq] at h1
+            simp only [partDeps, Except.ok.injEq] at ha
+            subst ha
+            by_cases hf : f = "inputs"
+            · subst hf
+              simp only [if_true] at h1; subst h1
+              exact paramref_sound "inputs" segs k hk hne
+            · simp only [hf, if_false] at h1; subst h1; simp at hk
+          | js prog =>
+            simp only [partReads] at h1
+            simp only [partDeps] at ha
+            exact deps_sound_partial prog (h prog (by simp)) a ha fuel ra h1 k hk
+        · apply List.mem_append_right
+          exact interp_sound_partial r (fun prog hp => h prog (by simp [hp])) b hb fuel rb h2 k hk hne
+
+/-- before `self.deps |= listener.deps` the set would be lost: order of placeholders does not matter for the union -/
+example : interpDeps "inputs" [.ref "inputs" [.dot "a"], .js (seq (ret (dot (ident "inputs") "b")) skip)] = .ok ["a", "b"] ∧
+    interpDeps "inputs" [.js (seq (ret (dot (ident "inputs") "b")) skip), .ref "inputs" [.dot "a"]] = .ok ["b", "a"] := by decide
+
 example : paramDeps "inputs" "inputs" [.dot "a", .dot "b"] = ["a"] := by decide
 example : paramDeps "inputs" "inputs" [.key "a b", .index 3] = ["a b"] := by decide
 example : paramDeps "inputs" "self" [.dot "a"] = [] := by decide
